@@ -93,6 +93,30 @@ func (s *parseSession) parse(c Cfg, in []byte, nd bool) (*simdjson.ParsedJson, e
 	return pj, err, ""
 }
 
+// parseDefaultScribbled parses a private copy of in with NO options into the session's
+// reused object (whatever mode its previous call used) and overwrites that copy before
+// returning: copying strings is the documented default, so the result must not depend on
+// the input any more.
+func (s *parseSession) parseDefaultScribbled(avx512 bool, in []byte) (*simdjson.ParsedJson, error, string) {
+	if s.reuse != nil {
+		simdjson.VerifReattach(s.reuse, s.internal)
+	}
+	buf := append([]byte(nil), in...)
+	pj, err, p := doParseDefault(avx512, buf, s.reuse, false)
+	for i := range buf {
+		buf[i] = '#'
+	}
+	if p != "" {
+		s.reuse, s.internal = nil, nil
+		return nil, nil, p
+	}
+	if pj != nil {
+		s.reuse = pj
+		s.internal = simdjson.VerifInternal(pj)
+	}
+	return pj, err, ""
+}
+
 func shapeOf(b []byte) string {
 	var sb strings.Builder
 	for i, c := range b {
